@@ -197,6 +197,38 @@ pub fn run(args: &[String]) {
         }
         shared.merge(rep);
     }
+    // (5) the operation-count clause under planner HISTORY (portable planner at T = OpCount): a composite m = 2q / 3q
+    // (q a prime that itself needs Bluestein / Rader) with 2n - 1 <= m < next_pow2(2n - 1) is planned first, then the
+    // Bluestein prime n — a planner that reuses earlier designs as inner transforms would nest Bluestein in Bluestein
+    {
+        let mut rep = Report::default();
+        let is_p = |x: usize| crate::util::is_prime_u64(x as u64);
+        for &n in [59usize, 83, 107, 149, 167, 263, 1031].iter() {
+            let lo = 2 * n - 1;
+            let hi2 = lo.next_power_of_two();
+            let mut ms: Vec<usize> = (lo..hi2).filter(|&m| m % n != 0 && ((m % 2 == 0 && is_p(m / 2) && m / 2 > 31) || (m % 3 == 0 && is_p(m / 3) && m / 3 > 31))).collect();
+            ms.truncate(6);
+            for m in ms {
+                rep.evaluations += 1;
+                rep.nontrivial += 1;
+                match catch(|| {
+                    let mut p = FftPlanner::<OpCount>::new();
+                    let _first = p.plan_fft(m, FftDirection::Forward);
+                    let fft = p.plan_fft(n, FftDirection::Forward);
+                    crate::k8::count_ops(&fft, n)
+                }) {
+                    Err(e) => rep.fail(format!("history-ops-panic plan {} then {}", m, n), e),
+                    Ok(ops) => {
+                        let lim = 64.0 * n as f64 * (n as f64).log2();
+                        if ops as f64 > lim {
+                            rep.fail(format!("history-ops n={} after planning {}", n, m), format!("{} operations > 64 n log2 n = {:.0} on a planner that had planned {} before", ops, lim, m));
+                        }
+                    }
+                }
+            }
+        }
+        shared.merge(rep);
+    }
     let mut rep = shared.into_inner();
     let wo = worst_ops.lock().unwrap();
     let ws = worst_scr.lock().unwrap();
